@@ -111,7 +111,55 @@ func valueSeeds() []valSeed {
 		{"uuids", []uuid.UUID{u, u}, []*TD{I, sl(td("uuid")), sl(I), sl(S)}},
 		{"bigs", []*big.Int{bi, big.NewInt(5)}, []*TD{I, sl(td("bigint")), sl(I), sl(td("bigrat"))}},
 		{"deep", [][][]interface{}{{{1, "x"}, {}}, {}}, []*TD{I, sl(sl(sl(I))), sl(I)}},
+		// longer than what a container reserves up front (io/count.go minPrealloc): the growth paths
+		{"ints17", seqInts(17), []*TD{I, sl(td("int")), sl(I), ar(20, td("int")), B, mp(td("int"), td("int"))}},
+		{"ints40", seqInts(40), []*TD{I, sl(td("int")), sl(td("int8")), sl(pt(td("int")))}},
+		{"ints300", seqInts(300), []*TD{I, sl(td("int")), sl(td("float64"))}},
+		{"strs33", seqStrs(33), []*TD{I, sl(S), sl(I), sl(B)}},
+		{"users20", seqUsers(20), []*TD{I, sl(reg("User")), sl(pt(reg("User"))), sl(mp(S, I))}},
+		{"map40", seqMap(40), []*TD{I, mp(S, td("int")), mp(I, I), mp(S, I)}},
+		{"nested20", seqNested(20), []*TD{I, sl(sl(td("int"))), sl(I)}},
 	}
+}
+
+func seqInts(n int) []int {
+	r := make([]int, n)
+	for i := range r {
+		r[i] = i*37 - 5
+	}
+	return r
+}
+
+func seqStrs(n int) []string {
+	r := make([]string, n)
+	for i := range r {
+		r[i] = string(rune('a'+i%26)) + "x"
+	}
+	return r
+}
+
+func seqUsers(n int) []User {
+	r := make([]User, n)
+	for i := range r {
+		r[i] = User{Name: "u", Age: i, Tags: []string{"t"}, P: &Pt{i, i}}
+	}
+	return r
+}
+
+func seqMap(n int) map[string]int {
+	r := map[string]int{}
+	for i := 0; i < n; i++ {
+		r[string(rune('a'+i%26))+string(rune('A'+i/26))] = i
+	}
+	return r
+}
+
+func seqNested(n int) [][]int {
+	r := make([][]int, n)
+	for i := range r {
+		r[i] = seqInts(i)
+	}
+	return r
 }
 
 func seeds() []seed {
